@@ -291,12 +291,66 @@ func nowMs() uint64 { return uint64(time.Now().UTC().UnixNano()) / 1000000 }
 // ---------- logical log events ----------
 type timeRep struct {
 	Unit string `json:"unit"` // none s ms ns us
-	Form string `json:"form"` // num str
+	Form string `json:"form"` // num str | frac exp big: a JSON number M * 10^E spelled with a fraction / an exponent / as a long integer
 	Val  uint64 `json:"val"`
+	M    string `json:"m,omitempty"`
+	E    int    `json:"e,omitempty"`
+}
+
+func (t timeRep) spelled() bool { return t.Form == "frac" || t.Form == "exp" || t.Form == "big" }
+
+// JSON text of the number M * 10^E in the given spelling
+func (t timeRep) text() string {
+	switch t.Form {
+	case "frac": // E < 0
+		d := t.M
+		for len(d) <= -t.E {
+			d = "0" + d
+		}
+		return d[:len(d)+t.E] + "." + d[len(d)+t.E:]
+	case "exp":
+		mant := t.M[:1]
+		if len(t.M) > 1 {
+			mant += "." + t.M[1:]
+		}
+		return mant + "e" + strconv.Itoa(t.E+len(t.M)-1)
+	case "big": // E >= 0
+		return t.M + strings.Repeat("0", t.E)
+	}
+	return coqN(t.Val)
+}
+
+// exact floor of M*10^E and of M*10^(E+3)
+func (t timeRep) floors() (*big.Int, *big.Int) {
+	fl := func(e int) *big.Int {
+		m, _ := new(big.Int).SetString(t.M, 10)
+		if e >= 0 {
+			return m.Mul(m, new(big.Int).Exp(big.NewInt(10), big.NewInt(int64(e)), nil))
+		}
+		return m.Div(m, new(big.Int).Exp(big.NewInt(10), big.NewInt(int64(-e)), nil))
+	}
+	return fl(t.E), fl(t.E + 3)
+}
+
+// a spelled number: the instant it denotes (ms), and what cutting the sub-second fraction would give
+func (t timeRep) denoted() (trueMs uint64, cutMs uint64, ok bool) {
+	f0, f3 := t.floors()
+	if f0.Sign() <= 0 || f0.BitLen() > 64 {
+		return 0, 0, false
+	}
+	v := f0.Uint64()
+	if v < milliT {
+		return f3.Uint64(), v * 1000, true
+	}
+	return v, v, true
 }
 
 // the instant in ms if (unit, form, value) is a supported way to say it, per the documented ranges
 func (t timeRep) supported() (uint64, bool) {
+	if t.spelled() {
+		ms, _, ok := t.denoted()
+		return ms, ok
+	}
 	switch t.Unit {
 	case "s":
 		if t.Val > 0 && t.Val < milliT {
@@ -385,15 +439,15 @@ func genEvent(r *vhlib.Rng, i int, stream string) levent {
 		e.TimeNs = ns
 		switch r.Intn(5) {
 		case 0:
-			e.Time = timeRep{"s", "num", ms / 1000}
+			e.Time = timeRep{Unit: "s", Form: "num", Val: ms / 1000}
 		case 1:
-			e.Time = timeRep{"ms", "num", ms}
+			e.Time = timeRep{Unit: "ms", Form: "num", Val: ms}
 		case 2:
-			e.Time = timeRep{"s", "str", ms / 1000}
+			e.Time = timeRep{Unit: "s", Form: "str", Val: ms / 1000}
 		case 3:
-			e.Time = timeRep{"ms", "str", ms}
+			e.Time = timeRep{Unit: "ms", Form: "str", Val: ms}
 		case 4:
-			e.Time = timeRep{"ns", "str", ns}
+			e.Time = timeRep{Unit: "ns", Form: "str", Val: ns}
 		}
 		if e.Time.Unit == "s" {
 			e.TimeNs = (ms / 1000) * 1000000000
@@ -410,6 +464,57 @@ func genEvent(r *vhlib.Rng, i int, stream string) levent {
 		}
 	}
 	return e
+}
+
+// numeric spellings of a time: M * 10^E as fraction / exponent / long integer
+func spellings(r *vhlib.Rng, n int) []timeRep {
+	var out []timeRep
+	add := func(form, m string, e int) { out = append(out, timeRep{Unit: "num", Form: form, M: m, E: e}) }
+	for i := 0; i < n; i++ {
+		ms := uint64(1577836800000) + r.U64()%uint64(122163200000)
+		sec := ms / 1000
+		switch i % 8 {
+		case 0: // seconds with a zero fraction: 1714352490.000
+			add("frac", coqN(sec)+"000", -3)
+		case 1: // seconds with milliseconds: 1714352490.251 (the fraction is cut by the reader)
+			if ms%1000 == 0 {
+				ms += 251
+			}
+			add("frac", coqN(ms), -3)
+		case 2: // milliseconds with a fraction: 1714352490251.5
+			f := vhlib.Pick(r, []string{"5", "25", "999"})
+			add("frac", coqN(ms)+f, -len(f))
+		case 3: // milliseconds, exponent form: 1.714352490251e12
+			add("exp", coqN(ms), 0)
+		case 4: // seconds, exponent form: 1.71435249e9
+			add("exp", coqN(sec), 0)
+		case 5: // seconds with milliseconds, exponent form: 1.714352490251e9
+			if ms%1000 == 0 {
+				ms += 7
+			}
+			add("exp", coqN(ms), -3)
+		case 6: // integer literals beyond int64 (exactly representable as float64)
+			add("big", vhlib.Pick(r, []string{"9223372036854775808", "9223372036854779904", "12", "92233720368547758080000"}), 0)
+			if out[len(out)-1].M == "12" {
+				out[len(out)-1].E = 18
+			}
+			if len(out[len(out)-1].M) > 20 { // 9223372036854775808.0000 spelled as a fraction instead
+				out[len(out)-1].Form, out[len(out)-1].E = "frac", -4
+			}
+		case 7: // milliseconds with trailing zeros in exponent form: 1.7143524e12
+			add("exp", strings.TrimRight(coqN(ms/100000), "0"), 5+len(coqN(ms/100000))-len(strings.TrimRight(coqN(ms/100000), "0")))
+		}
+	}
+	return out
+}
+
+func spellingEvents(r *vhlib.Rng, n int) []levent {
+	var out []levent
+	for i, t := range spellings(r, n) {
+		out = append(out, levent{Cid: fmt.Sprintf("n%d", i), Stream: "N", Time: t, Msg: "numeric spelling " + t.text(),
+			Attrs: []kv{{"n", sv{Kind: "i", I: int64(i)}}}, Res: []kv{{"service.name", sv{Kind: "s", S: "hostN"}}}})
+	}
+	return out
 }
 
 // boundary events for the ES path only (the protocol whose wire format carries every representation)
@@ -429,7 +534,7 @@ func boundaryEvents() []levent {
 			if v == 1600000000123456 {
 				unit = "us"
 			}
-			e := levent{Cid: fmt.Sprintf("t%d%s", i, form), Stream: "T", Time: timeRep{unit, form, v}, Msg: "boundary",
+			e := levent{Cid: fmt.Sprintf("t%d%s", i, form), Stream: "T", Time: timeRep{Unit: unit, Form: form, Val: v}, Msg: "boundary",
 				Attrs: []kv{{"n", sv{Kind: "i", I: int64(i)}}}}
 			out = append(out, e)
 		}
@@ -484,6 +589,8 @@ type expect struct {
 	carried   uint64        // the instant the event carries (ms), 0 = none
 	skipTime  bool          // the time representation is outside the documented ranges: not judged
 	timeKnown string        // class to use when a carried time is replaced by the arrival time
+	altTime   uint64        // a specific wrong time with its own class (seconds whose fraction was cut)
+	altClass  string
 }
 
 func checkStored(sum *vhlib.Summary, proto string, cid string, ex expect, o logObs, extraOK func(k string) string, c interface{}) {
@@ -502,6 +609,10 @@ func checkStored(sum *vhlib.Summary, proto string, cid string, ex expect, o logO
 			cl := proto + "_time_not_preserved"
 			if inWin && ex.timeKnown != "" {
 				cl = ex.timeKnown
+			} else if inWin {
+				cl = proto + "_time_replaced_by_arrival_time"
+			} else if ex.altClass != "" && o.st.ts == ex.altTime {
+				cl = ex.altClass
 			}
 			fail(sum, cl, fmt.Sprintf("%s: event %s carried time %d ms, stored timestamp %d (arrival window %d..%d)", proto, cid, ex.carried, o.st.ts, o.win.lo, o.win.hi), c)
 		}
@@ -591,16 +702,35 @@ func (t timeRep) esJSON() string {
 	if t.Unit == "none" {
 		return ""
 	}
+	if t.spelled() {
+		return `"timestamp":` + t.text() + ","
+	}
 	if t.Form == "num" {
 		return `"timestamp":` + coqN(t.Val) + ","
 	}
 	return `"timestamp":"` + coqN(t.Val) + `",`
 }
+
+// the timestamp value as a Coq sval (numbers only)
+func (t timeRep) coqSval() string {
+	switch t.Form {
+	case "frac", "exp":
+		return fmt.Sprintf("(SDec %s%%Z (%d)%%Z)", t.M, t.E)
+	case "big":
+		return "(SInt " + t.text() + "%Z)"
+	}
+	return "(SInt " + coqN(t.Val) + "%Z)"
+}
 func (t timeRep) coqWire() string {
 	if t.Unit == "none" {
 		return "WNone"
 	}
-	if t.Form == "num" {
+	switch t.Form {
+	case "frac", "exp":
+		return fmt.Sprintf("(WDec %s%%Z (%d)%%Z)", t.M, t.E)
+	case "big":
+		return "(WNum " + t.text() + "%Z)"
+	case "num":
 		return "(WNum " + coqN(t.Val) + "%Z)"
 	}
 	return "(WStr " + coqS(coqN(t.Val)) + ")"
@@ -653,6 +783,11 @@ func runES(sum *vhlib.Summary, evs []levent, cases *[]string) {
 		}
 		if t, ok := e.Time.supported(); ok {
 			ex.carried = t
+			if e.Time.spelled() {
+				if _, cut, _ := e.Time.denoted(); cut != t {
+					ex.altTime, ex.altClass = cut, "ts_fractional_seconds_truncated"
+				}
+			}
 		} else if e.Time.Unit != "none" {
 			// a representation outside the documented ranges: only content is judged, the time goes to the model
 			ex.skipTime = true
@@ -684,6 +819,9 @@ func runHEC(sum *vhlib.Summary, evs []levent, cases *[]string) {
 		}
 		for _, e := range evs[b:end] {
 			env := "{"
+			if e.Stream == "N" { // non-standard, but honoured: a root "timestamp" in a numeric spelling
+				env += e.Time.esJSON()
+			}
 			if e.TimeNs != 0 {
 				env += `"time":` + coqN(e.TimeNs/1000000000) + ","
 			}
@@ -737,6 +875,16 @@ func runHEC(sum *vhlib.Summary, evs []levent, cases *[]string) {
 			ex.cols["time"] = sv{Kind: "i", I: int64(e.TimeNs / 1000000000)}
 			tm = "(Some (SInt " + coqN(e.TimeNs/1000000000) + "%Z))"
 		}
+		root := "[]"
+		if e.Stream == "N" {
+			if t, ok := e.Time.supported(); ok {
+				ex.carried, ex.timeKnown = t, ""
+				if _, cut, _ := e.Time.denoted(); cut != t {
+					ex.altTime, ex.altClass = cut, "ts_fractional_seconds_truncated"
+				}
+			}
+			root = "[(k_timestamp, " + e.Time.coqSval() + ")]"
+		}
 		sum.Eval("hec/"+e.Cid, true)
 		sum.Count("hec/stream_" + e.Stream)
 		checkStored(sum, "hec", e.Cid, ex, o, leakClass("hec", earlier, ""), map[string]interface{}{"protocol": "splunk_hec", "event": e})
@@ -744,8 +892,8 @@ func runHEC(sum *vhlib.Summary, evs []levent, cases *[]string) {
 			earlier[k] = true
 		}
 		ev := append([]kv{{"cid", sv{Kind: "s", S: e.Cid}}, {"message", sv{Kind: "s", S: e.Msg}}}, e.Attrs...)
-		*cases = append(*cases, fmt.Sprintf("(LHec {| h_time := %s; h_index := %s; h_meta := %s; h_root := []; h_event := HObj %s |}, %s, %s)",
-			tm, coqS(ix), coqEvent(metaFs), coqEvent(ev), coqS(ix), o.coq()))
+		*cases = append(*cases, fmt.Sprintf("(LHec {| h_time := %s; h_index := %s; h_meta := %s; h_root := %s; h_event := HObj %s |}, %s, %s)",
+			tm, coqS(ix), coqEvent(metaFs), root, coqEvent(ev), coqS(ix), o.coq()))
 	}
 }
 
@@ -866,7 +1014,7 @@ func designedEvents() []levent {
 				e.Trace = []byte{1, 2, 3, 4, 5, 6, 7, 8, 9, 10, 11, 12, 13, 14, 15, byte(16 + g*4 + j)}
 				e.Span = []byte{1, 2, 3, 4, 5, 6, 7, byte(8 + g*4 + j)}
 				e.TimeNs = 1650000000000000000 + uint64(g*4+j)*1000000007
-				e.Time = timeRep{"ns", "str", e.TimeNs}
+				e.Time = timeRep{Unit: "ns", Form: "str", Val: e.TimeNs}
 			}
 			out = append(out, e)
 		}
@@ -1412,6 +1560,49 @@ func runUnits(cfg vhlib.Config, sum *vhlib.Summary, r *vhlib.Rng) {
 		}
 	}
 	flushShard()
+	// ---- numeric timestamps in every JSON spelling (fraction, exponent, beyond int64): the float fall-back ----
+	nsp := 320
+	if cfg.Thorough() {
+		nsp = 4000
+	}
+	sp := spellings(r, nsp)
+	for _, b := range []string{"99999999998", "99999999999", "100000000000", "1714352490", "1714352490251", "9007199254740993", "4294967296", "1"} {
+		sp = append(sp, timeRep{Unit: "num", Form: "frac", M: b + "5", E: -1}, timeRep{Unit: "num", Form: "frac", M: b + "9999999999", E: -10},
+			timeRep{Unit: "num", Form: "frac", M: b + "0000000001", E: -10}, timeRep{Unit: "num", Form: "exp", M: b, E: 0},
+			timeRep{Unit: "num", Form: "exp", M: b, E: 3}, timeRep{Unit: "num", Form: "exp", M: b + "75", E: -2})
+	}
+	for i := 0; i < 40; i++ { // integer literals in [2^63, 2^64)
+		sp = append(sp, timeRep{Unit: "num", Form: "big", M: coqN(1<<63 + r.U64()>>1), E: 0})
+	}
+	var spTerms []string
+	for _, t := range sp {
+		txt := t.text()
+		got := utils.ExtractTimeStamp([]byte(`{"timestamp":`+txt+`}`), &key)
+		spTerms = append(spTerms, "("+t.coqSval()+", "+uobs(got, true)+")")
+		sum.Eval("unit_spelling/"+txt, true)
+		sum.Count("unit/spelling_" + t.Form)
+		c := map[string]interface{}{"timestamp_json_number": txt}
+		f0, _ := t.floors()
+		if f0.Sign() > 0 && f0.BitLen() <= 64 {
+			if got == 0 {
+				fail(sum, "ts_numeric_spelling_read_as_no_time", fmt.Sprintf("ExtractTimeStamp({\"timestamp\":%s}) = 0: the event carries a time and would be stored with the arrival time", txt), c)
+			} else if fv, err := strconv.ParseFloat(txt, 64); err == nil && fv < 18446744073709551615.0 && uint64(fv) == f0.Uint64() {
+				// the float has the exact integer part: the unit ranges decide
+				want := f0.Uint64()
+				if want < milliT {
+					want *= 1000
+				}
+				if got != want {
+					fail(sum, "ts_unit_misread_num", fmt.Sprintf("ExtractTimeStamp: number %s has integer part %s, read as %d ms", txt, f0.String(), got), c)
+				}
+			}
+		}
+		if len(spTerms) == 200 {
+			sum.Sample(map[string]interface{}{"timestamp_json_number": txt, "ExtractTimeStamp": got})
+		}
+	}
+	writeSharded(cfg, sum, "cases_units_spell", "list (sval * uobs)", "check_spell cases", spTerms, 800)
+
 	// digit strings around and beyond 2^64 (ConvertTimestampToMillis only)
 	var sterms []string
 	for _, s := range []string{"18446744073709551615", "18446744073709551616", "18446744073709551614", "99999999999999999999",
@@ -1871,9 +2062,15 @@ func main() {
 	// designed sequences: an event with every key, then one with none, then every key again
 	evs = append(evs, designedEvents()...)
 	var logCases, logReqCases, traceReqCases []string
-	esEvs := append(append([]levent{}, evs...), boundaryEvents()...)
+	// events whose timestamp is a JSON number in every spelling: ES documents and the root of HEC envelopes
+	nN := 24
+	if cfg.Thorough() {
+		nN = 240
+	}
+	nEvs := spellingEvents(r.Fork(), nN)
+	esEvs := append(append(append([]levent{}, evs...), nEvs...), boundaryEvents()...)
 	runES(sum, esEvs, &logCases)
-	runHEC(sum, evs, &logCases)
+	runHEC(sum, append(append([]levent{}, evs...), nEvs...), &logCases)
 	writeSharded(cfg, sum, "cases_logs", "list (lcase * list N * lobs)", "check_logs cases", logCases, 120)
 	runOTLPLogs(sum, r.Fork(), evs, &logReqCases)
 	writeSharded(cfg, sum, "cases_otlp_logs", "list (list res_logs * list lobs)", "check_logs_reqs (s2b \"otel-logs\") cases", logReqCases, 12)
